@@ -240,7 +240,10 @@ def same(got, exp, tol=1e-8, path="res"):
         return f"{path}: non-finite"
     scale = max(1.0, float(np.abs(e).max()) if e.size else 1.0)
     if g.size and float(np.abs(g - e).max()) > tol * scale:
-        return f"{path}: got {np.round(g, 9).real.tolist() if np.allclose(g.imag, 0) else g.tolist()} expected {np.round(e.real, 9).tolist()}"
+        def fmt(x):
+            x = np.round(x, 9)
+            return x.real.tolist() if np.allclose(x.imag, 0) else x.tolist()
+        return f"{path}: got {fmt(g)} expected {fmt(e)}"
     return None
 
 
